@@ -64,6 +64,32 @@ def s1(prog, rep):
                 rep.check(ok, "S1-sign", "%s in %s" % (c.text[:40], f.name), c.where,
                           "%s accepts a leading '-' and returns the negation in the unsigned type; the function never looks at the sign, so \"-1\" parses as the "
                           "type's maximum and \"-18446744073709551615\" as 1" % c.callee, function=f.name, construct="unsigned-sign")
+            # the sign test must apply to every non-zero result: it may sit behind `val != 0` and the else-chain of the
+            # syntax/range tests, but not behind any other condition on the value (a negated numeral can land anywhere)
+            if ok:
+                vals = [norm(e.kid(0)) for e in f.all_elems() if e.is_assign and e.kid(1) is not None and e.kid(1).strip() is c]
+                val = vals[0] if vals else None
+                for b in f.blocks.values():
+                    if b.cond is None or val is None:
+                        continue
+                    hit = any(R == ("c", ord("-")) and op in ("==", "!=") and L[0] in ("*", "[]") for op, L, R, _, _ in cond_atoms(b.cond, True))
+                    if not hit:
+                        continue
+                    extra = []
+                    for cond, truth in f.edge_conds(b.cond):
+                        for op, L, R, _, _ in cond_atoms(cond, truth):
+                            if L != val:
+                                continue
+                            if R == ("c", 0) and op in ("!=", ">"):
+                                continue
+                            if R[0] == "c" and R[1] == 1 and op == ">=":
+                                continue
+                            if R[0] == "v" and op in (">=", "<="):
+                                continue      # false edges of the val < min / val > max / val > typemax tests
+                            extra.append((op, show(R)))
+                    rep.check(not extra, "S1-sign", "the sign test in %s covers every non-zero value" % f.name, b.cond.where,
+                              "the test of the '-' sign is reached only when %s: a negative numeral whose negation falls outside that range is still accepted "
+                              "(e.g. -18446744073709551615 -> 1)" % ", ".join("val %s %s" % x for x in extra), function=f.name, construct="sign-coverage")
     if not seen:
         rep.defer_broken("S1: no unsigned conversion found (parsenum_unsigned gone?)")
 
